@@ -93,8 +93,10 @@ Definition check_lancero (cards : list card) (t : tables) (mixed : bool) (order 
   && znodupb (evens (t_nums t))
   && groups_coverb (t_nums t) (t_groups t)
   && (t_cpp t =? 2)
-  && (match cards with [] => true | _ => t_subdiv t =? first_rows cards end)
-  && Bool.eqb mixed (rows_mixed cards)
+  && (if forallb (fun d => 1 <=? c_nrows d) cards    (* every card really has rows *)
+      then (match cards with [] => true | _ => t_subdiv t =? first_rows cards end)
+           && Bool.eqb mixed (rows_mixed cards)
+      else true)
   && zlist_eqb order (lancero_order cards 0).
 
 (* ---------------------------------------------------------------- single-stream-per-channel sources *)
@@ -260,3 +262,33 @@ Fixpoint check_from (k : cst) (h : list (op * obs)) : bool :=
   end.
 
 Definition C19_check (h : list (op * obs)) : bool := check_from cst0 h.
+
+(* ================================================================ Prop-level vocabulary of the theorems *)
+
+(* an error/feedback pair occupies two consecutive positions *)
+Definition dup {A} (l : list A) : list A := flat_map (fun x => [x; x]) l.
+
+(* channel number x belongs to group g = (Firstchan, Nchan) *)
+Definition in_grp (x : Z) (g : Z * Z) : Prop := fst g <= x < fst g + snd g.
+
+(* two groups have no channel number in common *)
+Definition gdisj (g h : Z * Z) : Prop :=
+  snd g <= 0 \/ snd h <= 0 \/ fst g + snd g <= fst h \/ fst h + snd h <= fst g.
+
+(* groups at different positions of the list are disjoint *)
+Fixpoint pdisj (gs : list (Z * Z)) : Prop :=
+  match gs with [] => True | g :: r => Forall (gdisj g) r /\ pdisj r end.
+
+Definition geo0 : geo := mkG 0 0 0 0.
+
+Definition dims_nonneg (cards : list card) : Prop :=
+  Forall (fun d => 0 <= c_ncols d /\ 0 <= c_nrows d) cards.
+Definition dims_in_field (cards : list card) : Prop :=
+  Forall (fun d => 0 <= c_ncols d < 65536 /\ 0 <= c_nrows d < 65536) cards.
+
+(* a string without per-cent signs (premise on the base path of a START) *)
+Fixpoint no_percent (s : string) : Prop :=
+  match s with EmptyString => True | String c r => c <> "%"%char /\ no_percent r end.
+
+(* the three extensions writeControlStart uses *)
+Definition exts : list string := ["ljh"%string; "ljh3"%string; "off"%string].
